@@ -20,7 +20,8 @@ EXTENDS Integers, Sequences, FiniteSets, TLC
 
 CONSTANTS
   ClosesPipeOnBuildError,   \* FALSE = as built (D9): error returns of buildHTTP after the goroutine start leave the pipe open
-  ClosesFilesOnFieldError,  \* FALSE = as built (D17): a failed WriteField returns before the file-closing defer is registered
+  ClosesFilesOnParamsError, \* FALSE = as built (D9b): a params-writer error after SetFileParam leaves the files open
+  ClosesFilesOnFieldError,  \* FALSE = as built (D18): a failed WriteField returns before the file-closing defer is registered
   FileLen,                  \* units per upload source (>= 1); unit 1 is what the content-type sniffing Read delivers
   RespLen                   \* units of the response body (>= 1)
 
@@ -119,7 +120,7 @@ WriterAlive(s) == s.wpc \notin {"none", "done"}
 BuildFail(c, s) ==
   [s EXCEPT !.res = "err", !.pc = "returned", !.consumer = "none",
             !.pr = IF ClosesPipeOnBuildError /\ s.wpc # "none" THEN "closed" ELSE @,
-            !.fileOpen = IF ClosesPipeOnBuildError /\ s.wpc = "none" THEN CloseAll ELSE @]
+            !.fileOpen = IF ClosesFilesOnParamsError /\ s.wpc = "none" THEN CloseAll ELSE @]
 
 FirstWpc(c) == IF c.fields > 0 THEN "fields" ELSE IF c.nfiles > 0 THEN "sniff" ELSE "closefiles"
 
@@ -325,23 +326,30 @@ Outcomes(c) == { Obs(c, s) : s \in Terminals(c) }
 (***************************************************************************)
 CONSTANT ZeroLenReadSetsEOF    \* TRUE = as built (D16): n == 0 marks the end as seen even for an empty buffer
 
-DInit(len) == [rem |-> len, uterm |-> FALSE, seen |-> FALSE, closed |-> FALSE]
+\* u = [len, chunk, eofWithData, failAt]: the underlying stream; failAt >= 0: it fails (sticky) at that offset
+DInit == [pos |-> 0, uterm |-> FALSE, seen |-> FALSE, closed |-> FALSE]
 
-\* underlying Read(n): [n, end] ; end: the call returned io.EOF
-URead(d, n, chunk, eofWithData) ==
-  LET k == IF n < d.rem THEN (IF n < chunk THEN n ELSE chunk) ELSE (IF d.rem < chunk THEN d.rem ELSE chunk) IN
-  IF d.rem = 0 THEN [n |-> 0, end |-> TRUE]
-  ELSE IF n = 0 THEN [n |-> 0, end |-> FALSE]
-  ELSE [n |-> k, end |-> (k = d.rem /\ eofWithData)]
+DMin(a, b) == IF a < b THEN a ELSE b
+UStop(u) == IF u.failAt >= 0 THEN u.failAt ELSE u.len
 
-DRead(d, n, chunk, eofWithData) ==
-  LET u == URead(d, n, chunk, eofWithData) IN
-  [d EXCEPT !.rem = @ - u.n, !.uterm = @ \/ u.end,
-            !.seen = @ \/ u.end \/ (u.n = 0 /\ (ZeroLenReadSetsEOF \/ n > 0))]
+\* underlying Read with a buffer of n bytes: [n, r] ; r: nil / eof / err
+URead(d, n, u) ==
+  LET avail == UStop(u) - d.pos
+      k == DMin(n, DMin(u.chunk, avail)) IN
+  IF avail = 0 THEN [n |-> 0, r |-> IF u.failAt >= 0 THEN "err" ELSE "eof"]
+  ELSE IF n = 0 THEN [n |-> 0, r |-> "nil"]
+  ELSE [n |-> k, r |-> IF k = avail /\ u.failAt < 0 /\ u.eofWithData THEN "eof" ELSE "nil"]
 
-DClose(d) == IF d.seen THEN [d EXCEPT !.closed = TRUE]
-             ELSE [d EXCEPT !.rem = 0, !.uterm = TRUE, !.closed = TRUE]      \* io.Copy(io.Discard, rdr)
+\* drainingReadCloser.Read: passes the underlying result through; marks the end as seen
+DRead(d, n, u) ==
+  LET x == URead(d, n, u) IN
+  [d EXCEPT !.pos = @ + x.n, !.uterm = @ \/ x.r # "nil",
+            !.seen = @ \/ x.r = "eof" \/ (x.n = 0 /\ (n > 0 \/ ZeroLenReadSetsEOF))]
 
-\* drained when its end was not yet seen: when the body is closed the underlying stream has reached its end
+\* drainingReadCloser.Close: io.Copy(io.Discard, rdr) unless the end was seen; then close
+DClose(d, u) == IF d.seen THEN [d EXCEPT !.closed = TRUE]
+                ELSE [d EXCEPT !.pos = UStop(u), !.uterm = TRUE, !.closed = TRUE]
+
+\* "drained when its end was not yet seen": when the body is closed the underlying stream has reached its end
 DrainedAtClose(d) == d.closed => d.uterm
 =============================================================================
